@@ -82,6 +82,10 @@ def build(variant="opt", quiet=True):
     d = os.path.join(BUILD_ROOT, "%s-%s" % (variant, tree_hash(variant)))
     lib = os.path.join(d, "librebound" + SUFFIX)
     if os.path.exists(os.path.join(d, ".done")):
+        try:
+            os.utime(d, None)
+        except OSError:
+            pass
         return d
     tmp = d + ".tmp%d" % os.getpid()
     shutil.rmtree(tmp, ignore_errors=True)
@@ -115,14 +119,17 @@ def build(variant="opt", quiet=True):
     return d
 
 
-def _prune(keep, max_keep=6):
-    """Keep the build cache small: newest max_keep dirs."""
+def _prune(keep, max_keep=12, min_age=3 * 3600):
+    """Keep the build cache small: beyond the newest max_keep dirs, drop those unused for min_age seconds
+    (other processes may still be running against a recent build)."""
+    import time
     try:
         ds = [os.path.join(BUILD_ROOT, x) for x in os.listdir(BUILD_ROOT)]
-        ds = [x for x in ds if os.path.isdir(x) and ".tmp" not in x]
+        ds = [x for x in ds if os.path.isdir(x)]
         ds.sort(key=os.path.getmtime, reverse=True)
+        now = time.time()
         for x in ds[max_keep:]:
-            if x != keep:
+            if x != keep and now - os.path.getmtime(x) > min_age:
                 shutil.rmtree(x, ignore_errors=True)
     except OSError:
         pass
